@@ -220,7 +220,7 @@ def eager_lazy_strategy():
     "C10",
     "eager_lazy_build",
     eager_lazy_strategy,
-    quick=260,
+    quick=500,
     thorough=5000,
     tol="ulp32(8): 1e-6*max|P| (identical float32 operations on both paths; observed 0)",
     rule="ensemble size >= 2",
@@ -306,7 +306,7 @@ def _kind_class(kind):
     "C10",
     "slice_window",
     window_strategy,
-    quick=400,
+    quick=800,
     thorough=8000,
     tol="ulp32(8): 1e-6*max|P| for builders, exact for PotentialArray; thicknesses/flags exact",
     rule="window != full range",
